@@ -45,7 +45,10 @@ pub fn differential(db: &anything::Db, words: &[String], q: &str) -> Option<(Str
     if n != 1 || descs.len() != 1 {
         return None;
     }
-    let anything::Description::Constant(_, c) = &descs[0];
+    #[allow(irrefutable_let_patterns)]
+    let anything::Description::Constant(_, c) = &descs[0] else {
+        return Some(("description-is-not-a-constant".into(), q.to_string()));
+    };
     if c.description != direct.description {
         return None; // another constant carrying the same words: judged by the word clauses, not here
     }
